@@ -716,6 +716,30 @@ def closure_of(ctx, entries):
     return g.reach_from(start)
 
 
+def data_key(key):
+    """a site key without the callee-name leaves: function | kind | detail{parameters, fields, constants}#shape"""
+    import re as _re
+    m = _re.match(r"^(.*?\{)(.*?)(\}.*)$", key)
+    if not m:
+        return key
+    leaves = [x for x in m.group(2).split(",") if x and not x.endswith("()")]
+    return m.group(1) + ",".join(leaves) + m.group(3)
+
+
+_NEAR = {}
+
+
+def near_index(table):
+    k = id(table)
+    if k not in _NEAR:
+        idx = {}
+        for key, e in table.items():
+            idx.setdefault(data_key(key), []).append(e)
+        _NEAR.clear()
+        _NEAR[k] = idx
+    return _NEAR[k]
+
+
 def load_table():
     path = os.path.join(os.path.dirname(os.path.dirname(os.path.dirname(os.path.abspath(__file__)))), "rules", "panic_sites.json")
     if not os.path.exists(path):
@@ -755,8 +779,17 @@ def panic_rule(ctx, prop, rule, entries, floor=0, skip_fns=(), only_fn=None):
                     ctx.ok(prop, rule, anchor, "A4 (assumed invariant, by pattern): %s" % pat, [s.where()], assumed=True)
                     continue
                 e = table.get(key)
+                near = False
                 if e is not None:
                     used.add(key)
+                else:
+                    # the same site after a restructuring that only changed HOW its operands are computed
+                    # (a helper, another accessor): same function, kind, detail, data sources (parameters,
+                    # fields, constants) and arithmetic shape — unique among the reviewed entries
+                    cands = near_index(table).get(data_key(key), [])
+                    if len(cands) == 1:
+                        e, near = cands[0], True
+                if e is not None:
                     if e.get("guard"):
                         # A3: the named guard must still dominate the site
                         conds = [c_ for o, t, _ in dominating_conditions(s.fa, s.bb) for c_ in cond_spellings(o, t)]
@@ -769,7 +802,7 @@ def panic_rule(ctx, prop, rule, entries, floor=0, skip_fns=(), only_fn=None):
                                      key="%s|%s|%s|guard lost" % (prop, rule, key))
                     else:
                         stats["A4"] += 1
-                        ctx.ok(prop, rule, anchor, "A4 (assumed invariant): %s" % e["reason"], [s.where()], assumed=True)
+                        ctx.ok(prop, rule, anchor, "A4 (assumed invariant%s): %s" % (", entry matched by data sources after restructuring" if near else "", e["reason"]), [s.where()], assumed=True)
                     continue
                 ctx.fail(prop, rule, anchor, "panic-capable construct reachable from %s is not discharged: %s at %s — no dominating guard, constant operands, or reviewed entry" % (
                     "/".join(x.split("::")[-1] for x in entries), s.sig(), s.where()), [s.where()], key="%s|%s|%s" % (prop, rule, key))
